@@ -82,8 +82,17 @@ def unique(array):
     # numpy.unique doesn't handle mixed-types on python3,
     # so we use pandas
     array = np.asarray(array)
-    I, U = pd.factorize(array.ravel(), sort=True)
+    I, U = pd.factorize(_native_byte_order(array.ravel()), sort=True)
     return U.astype(array.dtype), I.reshape(array.shape)
+
+
+def _native_byte_order(values):
+    # pandas cannot hash values that are stored in non-native byte order
+    # (e.g. big-endian columns read from a FITS table)
+    dtype = getattr(values, 'dtype', None)
+    if isinstance(dtype, np.dtype) and not dtype.isnative:
+        return np.asarray(values).astype(dtype.newbyteorder('='))
+    return values
 
 
 def shape_to_string(shape):
@@ -624,8 +633,8 @@ def index_lookup(data, items):
     if len(shape) != 1:
         data = np.asarray(data).ravel()
     ndata, ncat = len(data), len(items)
-    data = pd.DataFrame({'data': data, 'row': np.arange(ndata)})
-    cats = pd.DataFrame({'items': items,
+    data = pd.DataFrame({'data': _native_byte_order(data), 'row': np.arange(ndata)})
+    cats = pd.DataFrame({'items': _native_byte_order(items),
                          'cat_row': np.arange(ncat)})
 
     m = pd.merge(data, cats, left_on='data', right_on='items')
